@@ -843,7 +843,11 @@ func (r *Reader) FetchMessage(ctx context.Context) (Message, error) {
 
 				switch {
 				case m.error != nil:
-				case version == r.version:
+				case m.version == r.version:
+					// The message belongs to the current position of the
+					// reader, even if this call started before a SetOffset
+					// moved it: the offset has to follow, otherwise a later
+					// SetOffset to the stale value would be ignored.
 					r.offset = m.message.Offset + 1
 					r.lag = m.watermark - r.offset
 				}
